@@ -342,7 +342,7 @@ func mustStoreAtSuccess(fn *ssa.Function) map[string]bool {
 		if !ok {
 			continue
 		}
-		if len(ret.Results) > 0 && !isNilConst(ret.Results[len(ret.Results)-1]) {
+		if rr := retResults(ret); len(rr) > 0 && !isNilConst(rr[len(rr)-1]) {
 			continue // error return
 		}
 		if res == nil {
